@@ -5,6 +5,7 @@ One request per line `<op> <args…>`; one response line per request.
 import Driver.Proto
 import Beeb.Model.Catalog
 import Beeb.Spec.Info
+import Beeb.Model.Main
 
 open Beeb Driver
 
@@ -32,19 +33,73 @@ def opFields (args : List String) : String :=
     | none => "bad-op"
   | _ => "bad-op"
 
-def dispatch (line : String) : String :=
+def sectorsOfByteArray (b : ByteArray) : Array Sector := Id.run do
+  let n := b.size / 256
+  let mut out : Array Sector := Array.mkEmpty n
+  for i in [0:n] do
+    let mut s : List Nat := []
+    for j in [0:256] do
+      s := (b.get! (i * 256 + 255 - j)).toNat :: s
+    out := out.push s
+  return out
+
+structure DState where
+  files : List (Bytes × HostFile) := []
+
+def hostFs (st : DState) : HostFs := fun p =>
+  match st.files.find? (fun e => e.1 == p) with
+  | some e => e.2
+  | none => .missing
+
+def showFiles (fs : List (Bytes × Bytes)) : String :=
+  if fs.isEmpty then "-" else String.intercalate "," (fs.map (fun p => hex p.1 ++ ":" ++ hex p.2))
+
+def showRun (r : RunRes) : String :=
+  match r.unmodelled with
+  | some w => s!"unmodelled {w}"
+  | none =>
+    let crash := match r.crash with | some s => hex (strBytes s) | none => "-"
+    s!"exit={r.exit} err={showBool r.err} out={hex r.out} files={showFiles r.files} crash={crash}"
+
+/-- `main <ndebug 0/1> <cols or -> <argv as hex words…>` -/
+def opMain (st : DState) (args : List String) : String :=
+  match args with
+  | nd :: cols :: argv =>
+    match (argv.map unhex).foldr (fun a acc => match a, acc with | some x, some l => some (x :: l) | _, _ => none) (some []) with
+    | none => "bad-op"
+    | some av => showRun (dfsMain (hostFs st) (nd == "1") (if cols == "-" then none else cols.toNat?) av)
+  | _ => "bad-op"
+
+def dispatch (st : DState) (line : String) : String :=
   match line.trimAscii.toString.splitOn " " with
   | "infoline" :: args => opInfoLine args
   | "fields" :: args => opFields args
+  | "main" :: args => opMain st args
   | _ => "bad-op"
 
-partial def loop (h : IO.FS.Stream) (out : IO.FS.Stream) : IO Unit := do
+/-- stateful ops: `file <hexpath> raw|gzbad|missing <host path of (inflated) content>`, `clearfiles` -/
+partial def loop (h : IO.FS.Stream) (out : IO.FS.Stream) (st : DState) : IO Unit := do
   let line ← h.getLine
   if line.isEmpty then return ()
-  out.putStrLn (dispatch line)
-  loop h out
+  match line.trimAscii.toString.splitOn " " with
+  | ["file", hp, kind, path] =>
+    match unhex hp with
+    | none => out.putStrLn "bad-op"; loop h out st
+    | some p =>
+      let hf ← (match kind with
+        | "raw" => do
+          let b ← IO.FS.readBinFile path
+          pure (HostFile.raw (sectorsOfByteArray b) b.size)
+        | "gzbad" => pure HostFile.gzBad
+        | _ => pure HostFile.missing)
+      out.putStrLn "ok"
+      loop h out { st with files := (p, hf) :: st.files.filter (fun e => e.1 != p) }
+  | ["clearfiles"] => out.putStrLn "ok"; loop h out { st with files := [] }
+  | _ =>
+    out.putStrLn (dispatch st line)
+    loop h out st
 
 def main : IO Unit := do
   let stdin ← IO.getStdin
   let stdout ← IO.getStdout
-  loop stdin stdout
+  loop stdin stdout {}
